@@ -21,7 +21,7 @@ ERE_META = "^.[]$()|*+?{}\\"
 def run(ctx):
     ctx.clause = ("names taken from a whitelist become literal, anchored alternatives of the generated pattern: every "
                   "ERE metacharacter is escaped and no name reaches the pattern unescaped")
-    ctx.rules = ["R-RXESC/E1", "R-RXESC/E2", "R-RXESC/E3", "R-OPTARITY", "R-KEEPDROP"]
+    ctx.rules = ["R-RXESC/E1", "R-RXESC/E2", "R-RXESC/E3", "R-OPTARITY", "R-KEEPDROP", "R-WLONCE"]
     P = ctx.program(UNITS)
     g = P.fn1("abigail::regex::generate_from_strings")
     ctx.analysed(g)
@@ -126,9 +126,48 @@ def run(ctx):
                "argument `%s` is the generated pattern" % expr_str(w, a) if ok else
                "a regex string is set from `%s`, which does not come from generate_from_strings" % expr_str(w, a))
     check_keepdrop(ctx)
+    check_wlonce(ctx)
     ctx.assume("keep/drop selection semantics (which declarations the compiled pattern then matches) is runtime; "
                "user-supplied --keep/--drop patterns are compiled unmodified by design")
 
+
+
+def check_wlonce(ctx):
+    """R-WLONCE: what gen_suppr_spec_from_kernel_abi_whitelists() returns are *negative* suppressions - "drop every
+    function (variable) whose name is not one of these" - and the readers drop an artifact as soon as one suppression
+    matches.  Several whitelists therefore select the union of their names only if all the files go into *one* call: every
+    call of the generator, in the tools and in the library, (a) is handed a whole vector that lives outside the call (an
+    option field, a parameter, a variable - not a vector built in the argument), and (b) is not inside a loop.  One call
+    per file yields one "drop the rest" rule per file: a name survives only if every file lists it."""
+    P = ctx.program(["tools/abidiff.cc", "tools/abidw.cc", "tools/kmidiff.cc", "tools/abipkgdiff.cc", "src/abg-tools-utils.cc"])
+    n = 0
+    seen = {}
+    for f in sorted(P.all_funcs(), key=lambda x: (x.file, x.l0)):
+        if f.dep:
+            continue
+        for x in f.nodes():
+            if x["k"] != "CallExpr" or (f.decl(x) or {}).get("n") != "gen_suppr_spec_from_kernel_abi_whitelists":
+                continue
+            n += 1
+            ctx.analysed(f)
+            a = call_args(x)
+            a0 = strip_casts(a[0]) if a else None
+            while a0 is not None and a0["k"] in ("MaterializeTemporaryExpr", "CXXBindTemporaryExpr", "ExprWithCleanups") and a0.get("c"):
+                a0 = strip_casts(a0["c"][0])
+            whole = a0 is not None and a0["k"] in ("DeclRefExpr", "MemberExpr")
+            loop = next((p["k"] for p in f.ancestors(x) if p["k"] in ("ForStmt", "WhileStmt", "DoStmt", "CXXForRangeStmt")), None)
+            ok = whole and loop is None
+            tool = f.relfile.split("/")[-1]
+            ent = "%s %s: the whitelist suppressions are generated from all the whitelist files at once" % (tool, f.n)
+            seen[ent] = seen.get(ent, 0) + 1
+            if seen[ent] > 1:
+                ent += " #%d" % seen[ent]
+            ctx.ob("R-WLONCE", ent, ok, f.loc(x),
+                   "one call, handed `%s`" % expr_str(f, a0) if ok else
+                   "the generator is called %s%s: each call yields its own `drop whatever is not listed here` suppressions, and a "
+                   "name that is not in every file is dropped - the intersection of the whitelists instead of their union" % (
+                       "inside a %s " % loop if loop else "", "with a vector built for the call (`%s`)" % expr_str(f, a0)[:50] if not whole else ""))
+    ctx.floor("R-WLONCE", "calls of gen_suppr_spec_from_kernel_abi_whitelists", n, 3)
 
 
 def _escape_chunked(ctx, e, finds):
